@@ -8,6 +8,7 @@ package main
 
 import (
 	"bufio"
+	"strings"
 	"encoding/json"
 	"errors"
 	"fmt"
@@ -54,15 +55,53 @@ func emit(e Event) {
 }
 
 var lastCut int
+var disturbOn bool
 var cutEvery = 250
 var curSource = "os" // kind of the source the harness installed last
 
 // maybeCut marks a point where no specification state is carried over, so
 // that the driver may split the trace there (one TLC process per shard).
+var disturbN int
+
+// disturb: between the units of a data-level family, a rotation of calls that FAIL in every way the API can
+// fail (a source dying after some bytes, unknown words after known ones, wrong counts and sizes).  Their own
+// results are validated like any other event; their purpose is that state leaking out of a failed call
+// (pooled buffers, caches) shows up in the family's events that follow.
+func disturb() {
+	disturbN++
+	r := newRng(int64(disturbN), "disturb")
+	lang := int64(r.intn(10))
+	switch disturbN % 5 {
+	case 0:
+		src := &scriptReader{fill: r, after: "custom", script: []rstep{{K: 1 + r.intn(15)}, {K: 0, Err: "custom"}}}
+		kind := curSource
+		prev := swapSource(src, "script")
+		recNewMnemonic(int64(12+3*r.intn(5)), lang, Event{"cls": "disturb"})
+		swapSource(prev, kind)
+	case 1:
+		idx := indicesOf(r.bytes(sizes[r.intn(5)]))
+		ws := strings.Split(sentence(idx, int(lang), " "), " ")
+		ws[1+r.intn(len(ws)-1)] = "notaword"
+		recCheck(strings.Join(ws, " "), lang, Event{"cls": "disturb"})
+	case 2:
+		idx := indicesOf(r.bytes(16))
+		recCheck(sentence(idx[:5+r.intn(6)], int(lang), " "), lang, Event{"cls": "disturb"})
+	case 3:
+		recByEntropy(r.bytes(1+r.intn(60)), lang, Event{"fam": "disturb"})
+	case 4:
+		idx := indicesOf(r.bytes(sizes[r.intn(5)]))
+		idx[len(idx)-1] ^= 1 + r.intn(7)
+		recCheck(sentence(idx, int(lang), " "), lang, Event{"cls": "disturb"})
+	}
+}
+
 func maybeCut() {
 	if nEvents-lastCut >= cutEvery {
 		emit(Event{"op": "Cut", "source": curSource})
 		lastCut = nEvents
+		if !concMode && disturbOn {
+			disturb() // first thing in the new unit, so that a replay of the unit contains it
+		}
 	}
 }
 
